@@ -45,11 +45,14 @@ def algebra_ops(sess, suite, kps, pkp, signers, msg, comms, nonces, shares):
             suite, R["R"], shares[i], i, "id", pk["vshares"][i], lam["v"], c["c"]), EXACT, "share_verify-neg")
 
 
-def session(sess, suite, n, t, kind, signers_idx=None, dkg=False):
+def session(sess, suite, n, t, kind, signers_idx=None, dkg=False, split=None):
     rng = sess.rng
     start = len(sess.records)
     ids = None if kind == "default" else make_ids(sess, suite, n, kind)
-    r, shares, pkp = dealer(sess, suite, n, t, ids)
+    # keys from the trusted dealer: a fresh key (generate_with_dealer) or an existing one (split), half and half
+    use_split = rng.random() < 0.5 if split is None else split
+    key = Fld(suite).enc(Fld(suite).rand(rng, nonzero=True)) if use_split else None
+    r, shares, pkp = dealer(sess, suite, n, t, ids, key=key)
     if not r.ok:
         sess.oracle(False, "dealer refused valid parameters (%s)" % r.raw, [x[0] for x in sess.records[start:]])
         return
@@ -124,8 +127,9 @@ def generate(sess):
             session(sess, suite, n, t, rng.choice(["default", "u16", "derived"]))
     for rep in range(8 if thorough else 1):
         for suite in REAL_SUITES:
-            for (n, t) in ([(2, 2), (3, 2), (5, 3), (4, 4), (7, 5)] if thorough else [(3, 2), (5, 3)]):
-                session(sess, suite, n, t, ID_KINDS[(rep + n + t) % len(ID_KINDS)] if thorough else rng.choice(ID_KINDS))
+            for j, (n, t) in enumerate([(2, 2), (3, 2), (5, 3), (4, 4), (7, 5)] if thorough else [(3, 2), (5, 3)]):
+                # each suite's own generate_with_dealer AND its own split wrapper, with t < n
+                session(sess, suite, n, t, ID_KINDS[(rep + n + t) % len(ID_KINDS)] if thorough else rng.choice(ID_KINDS), split=(j + rep) % 2 == 0)
 
 
 def search(sess, disagreements):
